@@ -35,6 +35,6 @@ LEVEL_NOTE = "Trusted: E2 (round(x,3) correctly rounded), E3, re semantics, S1, 
 TECHNIQUE = "cvc5 bit-precise float lemma on the live decode AST + z3 regex lemmas + CrossHair value harnesses"
 ENGINE = "FK+RX+CH"
 EXPLANATION = "see obligation_table"
-BOUNDS = "n<1e7 (quick) / <1e9 (thorough); l<=16/63; us<1e13; all strings for recognition"
+BOUNDS = "n<1e7 (quick) / <1e9 (thorough); l<=16/63; us<1e13; all strings for recognition; whole sync sections with <=3 tempo lines, exponents {0,1,2,3,5,9,16}, symbolic resolution"
 OUTSIDE = "n>=1e9; anchor lines with trailing blanks (the statement does not promise padding for A lines)"
 ASSUMPTIONS = [S1, S5, E2, E3]
